@@ -955,6 +955,7 @@ impl Scheduler for BatchSched {
         let prev = CORE.with(|c| c.borrow_mut().take()).map(finish_core);
         match (self.driver.borrow_mut())(prev) {
             Some(req) => {
+                watchdog::begin(&req.prefix, req.order);
                 let mut core = Core::new(req.prefix, req.order, req.params);
                 core.body = Some(req.body);
                 if let Some(sl) = req.sleep {
@@ -965,12 +966,14 @@ impl Scheduler for BatchSched {
                 self.inner.new_execution()
             }
             None => {
+                watchdog::end();
                 self.done.set(true);
                 None
             }
         }
     }
     fn next_task(&mut self, r: &[&Task], c: Option<STaskId>, y: bool) -> Option<STaskId> {
+        watchdog::beat();
         let over = with_core(|c| c.steps > c.params.max_steps || c.divergence.is_some());
         if over {
             // stop this execution: reported as step cap / divergence, never as a verdict
@@ -1131,4 +1134,66 @@ pub fn deadline_passed() -> bool {
 fn trace_on() -> bool {
     thread_local! { static ON: bool = std::env::var("NV_TRACE").is_ok(); }
     ON.with(|o| *o)
+}
+
+
+/// Wall-clock watchdog for code that never comes back to the scheduler: a user-visible loop that
+/// spins without touching a channel, lock, timer or thread cannot be cut by the step cap. The
+/// scheduler records a heartbeat at every scheduling point; a watchdog thread calls `on_hang` when
+/// an execution of a job scenario stays silent for `HANG_S` seconds (a scheduling step of these
+/// jobs takes microseconds).
+pub mod watchdog {
+    use super::{Order, Point};
+    use std::sync::atomic::{AtomicBool, AtomicU64, Ordering};
+    use std::sync::Mutex;
+    use std::time::Instant;
+
+    pub const HANG_S: u64 = 20;
+    static BEAT_MS: AtomicU64 = AtomicU64::new(0);
+    static RUNNING: AtomicBool = AtomicBool::new(false);
+    static ENABLED: AtomicBool = AtomicBool::new(false);
+    static CURRENT: Mutex<Option<(Vec<Point>, Order)>> = Mutex::new(None);
+    static SCENARIO: Mutex<Option<(String, String)>> = Mutex::new(None);
+    static START: std::sync::OnceLock<Instant> = std::sync::OnceLock::new();
+
+    fn now_ms() -> u64 {
+        START.get_or_init(Instant::now).elapsed().as_millis() as u64
+    }
+    pub fn beat() {
+        BEAT_MS.store(now_ms(), Ordering::Relaxed);
+    }
+    pub fn begin(prefix: &[Point], order: Order) {
+        if ENABLED.load(Ordering::Relaxed) {
+            *CURRENT.lock().unwrap() = Some((prefix.to_vec(), order));
+        }
+        beat();
+        RUNNING.store(true, Ordering::SeqCst);
+    }
+    pub fn end() {
+        RUNNING.store(false, Ordering::SeqCst);
+    }
+    /// Name the scenario being explored; `watch` = false for enumerations inside one execution
+    /// (single task, no scheduling points for as long as their budget lasts).
+    pub fn scenario(name: &str, descr: &str, watch: bool) {
+        *SCENARIO.lock().unwrap() = Some((name.to_string(), descr.to_string()));
+        ENABLED.store(watch, Ordering::SeqCst);
+        beat();
+    }
+    /// Start the watchdog thread (once per process). `on_hang(scenario, descr, prefix, order,
+    /// silent seconds)` must not return.
+    pub fn start(on_hang: fn(String, String, Vec<Point>, Order, u64) -> !) {
+        let _ = now_ms();
+        std::thread::spawn(move || loop {
+            std::thread::sleep(std::time::Duration::from_millis(500));
+            if !ENABLED.load(Ordering::SeqCst) || !RUNNING.load(Ordering::SeqCst) {
+                continue;
+            }
+            let silent = now_ms().saturating_sub(BEAT_MS.load(Ordering::Relaxed)) / 1000;
+            if silent >= HANG_S {
+                let (name, descr) = SCENARIO.lock().unwrap().clone().unwrap_or_default();
+                let (prefix, order) = CURRENT.lock().unwrap().clone().unwrap_or((vec![], Order::RunAsc));
+                on_hang(name, descr, prefix, order, silent);
+            }
+        });
+    }
 }
